@@ -46,7 +46,7 @@ var lineTemplates = []string{
 	"-- x --", "-- y --", "--  x  --", "-- a b --", "-- x --\r", "-- x -- ", " -- x --", "--x --", "-- x--",
 	"--  --", "-- --", "--", "-- ", " --", "-- -- --", "-- x", "x --", "-- x --y", ">-- x --", "-- > --",
 	"", "a", "hello world", "\r", "a\r", "-", "---", "-- \r --", "-- x\r --", "-- \xff --", "\xff\xfe", "-- é --", "--\t--", "--\tx\t--", "-- \t --",
-	"-- x -- \r", "-- x --\r\r", "-- -- x -- --", "-- a/b/c --", "-- ../x --", ">", ">>", "> -- x --",
+	"-- 100% --", "-- a%20b --", "-- %s --", "-- %v%d --\r", "-- x%!y --", "-- x -- \r", "-- x --\r\r", "-- -- x -- --", "-- a/b/c --", "-- ../x --", ">", ">>", "> -- x --",
 }
 
 // RandomText builds a text of n lines from marker look-alike templates. Lines
@@ -131,7 +131,9 @@ func wfText(r *rand.Rand) []byte {
 	}
 }
 
-var names = []string{"a", "b.txt", "dir/file", "a b", "x--y", "-- z", "é", "a -- b", "-", "--", "n\tm", "name with  spaces", "../up", "/abs", "a\rb"}
+var names = []string{"a", "b.txt", "dir/file", "a b", "x--y", "-- z", "é", "a -- b", "-", "--", "n\tm", "name with  spaces", "../up", "/abs", "a\rb",
+	// names that mean something to a formatter or a shell
+	"100%", "a%20b.txt", "%s", "x%dy", "%!v(MISSING)", "%%", "{{.}}", "$HOME", "a\\nb", "\x00", "\xff\xfe", strings.Repeat("n", 300)}
 
 // WellFormed returns a well-formed archive in the sense of property C03:
 // trimmed non-empty names without newline, contents empty or
